@@ -54,6 +54,18 @@ class Check(PropertyCheck):
                     lines.append(f"estep {j} {-1 if m == 'none' else m}")
             lines.append("ereset")
             tr.reset()
+            if rng.random() < 0.4:
+                # the environment's reward function is replaced between episodes (by one built the ordinary way)
+                lines.append("eswap " + rng.choice(["makespan_reward", "idle_reward"]))
+                if rng.random() < 0.7:
+                    ep_extra = True
+                    while not tr.done():
+                        j, p, m = gen.gen_valid_request(rng, tr)
+                        tr.take(j)
+                        n_acc += 1
+                        lines.append(f"edisp {j} {p} {m}" if rng.random() < 0.2 else f"estep {j} {-1 if m == 'none' else m}")
+                    lines.append("ereset")
+                    tr.reset()
         return Scenario(lines, {"kind": "env", "family": family, "reward": rw, "accepted": n_acc,
                                 "filter": "none" if f is None else "+".join(f) or "empty-composite",
                                 "flexible": gen.is_flexible(jobs), "filter_style": rng.choice(["callable", "enum", "str"])})
@@ -116,7 +128,7 @@ class Check(PropertyCheck):
                 n = sum(len(ms) for ms in lists)
                 mk = max((x.end_time for ms in lists for x in ms), default=0)
                 idle = sum((ms[-1].end_time - sum(x.operation.duration for x in ms)) for ms in lists if ms)
-                want = -mk if scenario.meta["reward"] == "makespan" else -idle
+                want = -mk if type(impl.env.reward_function).__name__ == "MakespanReward" else -idle
                 if len(emitted) != n or sum(emitted) != want or any(r > 0 for r in emitted):
                     res.append(("env-sum", f"after `{line}`: rewards {emitted} for {n} dispatches, expected sum {want}"))
             return res
